@@ -46,8 +46,45 @@ def _logger(run):
     return run.logger
 
 
+class RecGymEnv:
+    """Factory for a recording wrapper around a seeded Gymnasium environment."""
+
+    @staticmethod
+    def make(trace, env_id, max_steps=None):
+        import gymnasium as gym
+
+        class Rec(gym.Wrapper):
+            def reset(self, **kw):
+                out = self.env.reset(**kw)
+                trace.ev("reset", env=env_id, seed=kw.get("seed"),
+                         obs=np.array(out[0], copy=True))
+                return out
+
+            def step(self, action):
+                out = self.env.step(action)
+                trace.n_steps += 1
+                trace.ev("step", env=env_id, action=np.array(action, copy=True),
+                         obs=np.array(out[0], copy=True), reward=float(out[1]),
+                         terminated=bool(out[2]), truncated=bool(out[3]), snap=None)
+                return out
+
+        kw = {} if max_steps is None else {"max_episode_steps": max_steps}
+        return Rec(gym.make(env_id, **kw))
+
+
+def _gym_env(run):
+    c = run.cfg
+    env = RecGymEnv.make(run.trace, c["gym_env"], c.get("gym_max_steps"))
+    env.action_space.seed(c["seed"])
+    run.env = env
+    run.envs = [env]
+    return env
+
+
 def _box_env(run, **kw):
     c = run.cfg
+    if c.get("gym_env"):
+        return _gym_env(run)
     env = ScriptEnv(run.trace, c["script"], obs_dim=c.get("obs_dim", 3),
                     low=c.get("low", [-1.0]), high=c.get("high", [1.0]),
                     snap_on_step=c.get("snap_on_step", True), **kw)
@@ -58,6 +95,8 @@ def _box_env(run, **kw):
 
 def _disc_env(run):
     c = run.cfg
+    if c.get("gym_env"):
+        return _gym_env(run)
     env = ScriptEnv(run.trace, c["script"], obs_dim=c.get("obs_dim", 3),
                     n_actions=c.get("n_actions", 3),
                     snap_on_step=c.get("snap_on_step", True))
@@ -85,7 +124,8 @@ def _dqn_like(run, which):
     c, tr = run.cfg, run.trace
     env = _disc_env(run)
     env.action_space.seed(c["seed"])
-    q = MLP(env.obs_dim, c.get("n_actions", 3), H, "relu", nnx.Rngs(c["seed"]))
+    q = MLP(env.observation_space.shape[0], int(env.action_space.n), H, "relu",
+            nnx.Rngs(c["seed"]))
     opt = nnx.Optimizer(q, optax.adam(c.get("lr", 1e-2)), wrt=nnx.Param)
     base = rb.PrioritizedReplayBuffer if which == "per" else rb.ReplayBuffer
     buf = rec_buffer_class(base, tr)(c.get("buffer_size", 1000),
@@ -568,7 +608,12 @@ def _tab(run, modname, fname, two=False, mc=False):
 
     c, tr = run.cfg, run.trace
     nS, nA = c.get("n_states", 5), c.get("n_actions", 3)
-    env = TabularScriptEnv(tr, nS, nA, c["script"], seed=c["seed"])
+    if c.get("gym_env"):
+        env = gym.wrappers.RecordEpisodeStatistics(_gym_env(run))
+        nS, nA = int(env.observation_space.n), int(env.action_space.n)
+        env.reset(seed=c["seed"])  # the harness seeds the environment
+    else:
+        env = TabularScriptEnv(tr, nS, nA, c["script"], seed=c["seed"])
     run.env = env
     run.envs = [env]
     rng = np.random.default_rng(c["seed"] + 7)
